@@ -289,6 +289,25 @@ example : (mapList [.wr .nodes bump] s0 0 true).2 = 0 ∧ (mapList [.wr .nodes b
     (mapListNoSwap [.wr .nodes bump] s0 0 true).2 = 1 := by decide
 example : extendsB s0 (mapList [.wr .nodes bump] s0 0 false).1 = true := by decide
 
+/-- two neurons with disjoint tables in one list: the hypotheses of `maplist_inplace_members` are satisfiable … -/
+def s1 : Store :=
+  { data := [10, 20, 110, 120],
+    objs := [{ nodes := some 0, conns := some 1, info := 7 }, { nodes := some 2, conns := some 3, info := 8 }],
+    lists := [[0, 1], [0, 0]] }
+
+example : (s1.lst 0).Pairwise (Disj s1) := by
+  simp only [s1, Store.lst, List.getElem?_cons_zero, Option.getD_some, List.pairwise_cons, List.mem_singleton,
+    List.not_mem_nil, false_imp_iff, implies_true, List.Pairwise.nil, and_true, forall_eq]
+  exact ⟨by decide, by decide⟩
+
+example : (mapList [.wr .nodes bump] s1 0 true).1.abs 1 = aexec (s1.abs 1) [.wr .nodes bump] := by decide
+
+/-- … and they are needed: a list holding the *same* neuron twice gets the body applied twice in place, but once
+per copy otherwise (a degenerate `NeuronList`; the harness checks that navis does exactly this). -/
+example : (mapList [.wr .nodes bump] s1 1 true).1.abs 0 ≠ aexec (s1.abs 0) [.wr .nodes bump] := by decide
+example : let r := mapList [.wr .nodes bump] s1 1 false
+    (r.1.lst r.2).map r.1.abs = [aexec (s1.abs 0) [.wr .nodes bump], aexec (s1.abs 0) [.wr .nodes bump]] := by decide
+
 /-- the generated table is not empty and contains the functions the property names -/
 example : 50 ≤ inplaceSpec.length := by decide
 example : ("morpho/manipulation.py:prune_by_strahler", true) ∈ inplaceSpec ∧
